@@ -73,11 +73,11 @@ def calibrate(trace_path, every=1):
             elif op == "radians":
                 deg, rad = ys
                 err = abs(rad * 180 - deg * PI)
-                mn = -149 if t == "f32" else -1074
-                if abs(rad) >= F(2) ** (mn + (24 if t == "f32" else 53) + 2):
+                mn, p = (-149, 24) if t == "f32" else (-1074, 53)
+                if abs(rad) >= F(2) ** (mn + p + 2):
                     up("radians.rel_err_over_u", float(err / abs(deg * PI)) / u, e)
-                else:   # results in or near the subnormal range: the absolute term of the tolerance applies
-                    up("radians.tiny_abs_err_over_min_subnormal", float(err / F(2) ** mn), e)
+                # fraction of the whole tolerance of Hue.tla!RadOK used (relative part + absolute part for tiny results)
+                up("radians.err_over_tolerance", float(err / (abs(deg * PI) / 2 ** (p - 4) + F(2) ** (mn + 10))), e)
             elif op == "cartesian":
                 a, b = xs
                 _, a2, b2 = ys
@@ -150,6 +150,28 @@ def interleave(ctx, path, chunk):
     return out
 
 
+REASONS = {
+    "signed: range or congruence": "the signed normal form is outside [-180,180] or not congruent to the stored angle modulo 360 (beyond rounding error), or not finite",
+    "unsigned: range or congruence": "the unsigned normal form is outside [0,360] or not congruent to the stored angle modulo 360 (beyond rounding error), or not finite",
+    "eq: disagrees with congruence mod 360": "equality disagrees with congruence modulo 360 (exactly congruent angles must be equal, angles further apart than rounding error must be unequal)",
+    "radians: inconsistent with degrees": "rad*180 differs from deg*pi beyond rounding, or the degree value is not the accessor's normal form",
+    "cartesian: direction or unit length": "from_cartesian then into_cartesian does not give a unit vector in the direction of the input",
+    "to_u8: not round(r*256/360) mod 256": "the 8-bit code is not round(r*256/360) mod 256 (r = angle mod 360), beyond the accepted rounding band at ties",
+    "from_u8: not k*360/256 or no round trip": "the float hue of code k is not exactly k*360/256, or converting it back does not give k",
+    "add: not congruent to the exact sum": "the sum is not congruent to the exact sum modulo 360 within rounding error",
+    "sub: not congruent to the exact difference": "the difference is not congruent to the exact difference modulo 360 within rounding error",
+}
+
+
+def no_wrapped_rejects(ctx, tag):
+    """TLC wraps printed tuples wider than 80 columns; common.validate_trace only recognises one-line REJECTs. The reasons
+    in TraceHue.tla are short enough, this is the safety net."""
+    for out in ctx.work.glob(tag + ".chunk*.tlc.out"):
+        for line in open(out):
+            if line.startswith('<< "REJECT"'):
+                raise ToolError("wrapped REJECT line in %s: shorten the reason texts of TraceHue.tla" % out)
+
+
 def run(ctx):
     bins = cargo_build(["hue"])
     n_int, notes = model_run(ctx)
@@ -158,12 +180,13 @@ def run(ctx):
     stats = json.loads((r.stderr or "{}").strip().splitlines()[-1])
     tp = interleave(ctx, tp, 5000 if ctx.quick else 20000)
     res = validate_trace(ctx, "TraceHue", tp, stateless=True, chunk_events=5000 if ctx.quick else 20000, tag="hue")
+    no_wrapped_rejects(ctx, "hue")
     ctx.cov["traces_validated_against_impl"] += res.events - len(res.rejected)
     add_samples(ctx, tp, n=5, every=7919)
     for (line, ev, info, _scen) in res.rejected:
         x0 = dy_to_float(ev["in"][0]) if ev.get("in") else float(ev.get("k", 0))
         coords = {"kind": "hue", "op": ev.get("op"), "ty": ev.get("ty"), "t": ev.get("t"), "m": ev.get("m"), "x": x0}
-        what = "%s - %s" % (describe(ev), info.strip('"'))
+        what = "%s - %s" % (describe(ev), REASONS.get(info.strip().strip('"'), info))
         report(ctx, coords, what, {"bin": "hue", "event": ev, "trace_line": line, "how": "./check C11 --replay <this file>"})
     cal, n_band = calibrate(tp, every=1 if ctx.quick else 7)
     ctx.cov["distinct_nontrivial"] = count_distinct(tp, lambda e: json.dumps([e["op"], e["t"], e["ty"], e["m"], e["in"], e["k"]]), nontrivial)
@@ -195,6 +218,7 @@ def replay(ctx, path):
     tp = ctx.p("replay.ndjson")
     run_bin(bins["hue"], ["--one", json.dumps(rp["event"]), "--out", tp])
     res = validate_trace(ctx, "TraceHue", tp, stateless=True, tag="replay")
+    no_wrapped_rejects(ctx, "replay")
     if res.rejected:
         print("VIOLATION property=C11 replay=%s" % path)
         print("  still rejected: %s - %s" % (describe(res.rejected[0][1]), res.rejected[0][2]))
